@@ -209,7 +209,10 @@ fn lex_block_string(lexer: &mut Lexer<'_, IsographLangTokenKind>) -> bool {
                 return true;
             }
             BlockStringToken::EscapedTripleQuote | BlockStringToken::Other => {}
-            BlockStringToken::Error => unreachable!(),
+            // Characters outside of the range accepted by BlockStringToken::Other
+            // (e.g. control characters, or characters outside of the basic multilingual
+            // plane) are not supported.
+            BlockStringToken::Error => return false,
         }
     }
     false
